@@ -311,7 +311,7 @@ class Initiator(DataExchangeProtocol):
             error = "unrecoverable NFC-DEP error in attention request"
             raise nfc.clf.ProtocolError(error)
 
-        def request_retransmission(self, n_retry_nak, rwt, deadline):
+        def request_retransmission(self, n_retry_nak, rwt, deadline, chained):
             req = NAK(self.pni, self.did, self.nad)
             for i in range(n_retry_nak):
                 timeout = min(rwt, deadline - time.time())
@@ -325,6 +325,9 @@ class Initiator(DataExchangeProtocol):
                     error = "received NFC-DEP RTOX response to NACK or ATN"
                     raise nfc.clf.ProtocolError(error)
                 expected = (DEP_RES.LastInformation, DEP_RES.MoreInformation)
+                if chained:
+                    # the lost response to a chained information PDU is an ACK
+                    expected += (DEP_RES.PositiveAck,)
                 if res.pfb.fmt not in expected:
                     error = "unrecoverable NFC-DEP transmission error"
                     raise nfc.clf.ProtocolError(error)
@@ -348,7 +351,8 @@ class Initiator(DataExchangeProtocol):
                 request_attention(self, 2, rwt, deadline)
                 continue
             except nfc.clf.TransmissionError:
-                res = request_retransmission(self, 2, rwt, deadline)
+                chained = req.pfb.fmt == DEP_REQ.MoreInformation
+                res = request_retransmission(self, 2, rwt, deadline, chained)
                 break
 
         if res.pfb.fmt == DEP_RES.NegativeAck:
